@@ -455,6 +455,12 @@ def build_sim(scn, algo=None, on_call=None, on_return=None, net_cls=MonNet, moni
     rec = Recorder(inner, on_call, on_return, peek=peek)
     if "k" in scn:
         rec.max_recompute = scn["k"]
+    # two-phase histories: events due at or after the split are held back and queued (public add_events) only after
+    # the first run() has returned
+    split = scn.get("two_phase")
+    rec.later = [e for e in events if split is not None and e.timestamp >= split]
+    if split is not None:
+        events = [e for e in events if e.timestamp < split]
     sim = Simulator(net, rec, EventQueue(events), START, period=scn.get("period", 1), verbose=False, store_schedule_history=store_history, signals=scn.get("signals"))
     periods = []
     if monitor and isinstance(net, MonNet):
